@@ -168,6 +168,7 @@ theorem scriptOf_no_lifecycle (dep : Bool) (cmd : Cmd) : ∀ op ∈ scriptOf dep
         · exact hcd _ _ op h
         · rcases h with rfl | rfl <;> rfl
   | changeUser ok => simp only [scriptOf] at h; split at h <;> simp at h <;> rcases h with rfl | rfl | rfl <;> rfl
+  | changeUserRaised => simp [scriptOf] at h; rcases h with rfl | rfl | rfl <;> rfl
   | unknown => simp [scriptOf] at h; subst h; rfl
   | malformed => simp [scriptOf] at h; subst h; rfl
 
@@ -262,6 +263,7 @@ theorem response_accepted (dep : Bool) (cmd : Cmd) : accepts dep cmd (resp (scri
     · simp [acceptFieldList]
     · simp [acceptFieldList]
   | changeUser ok => cases ok <;> simp [scriptOf, accepts, resp, acceptSimple]
+  | changeUserRaised => simp [scriptOf, accepts, resp, acceptSimple]
   | unknown => simp [scriptOf, accepts, resp, acceptSimple]
   | malformed => simp [scriptOf, accepts, resp, acceptSimple]
 
